@@ -2,7 +2,7 @@
 input-reachable panic edges."""
 from __future__ import annotations
 import re
-from ..astq import Node, up, strip, strip_cast, walk_no_nested_fn, calls, binding_before
+from ..astq import Node, up, strip, strip_cast, walk_no_nested_fn, calls, binding_before, _tnorm
 from ..rules.layout import origin
 from ..rules.pred import Pred, check_table
 
@@ -28,7 +28,7 @@ def ob_chrom_order(ctx, res):
             if t == "chrom":
                 return "next"
             return None
-        p = Pred(n["cond"])
+        p = Pred(_tnorm(fn, n["cond"]))
         rows, cex, err = check_table(p, role, ["prev", "next", "?allow"], lambda v: True, lambda v: (not v["?allow"]) and v["prev"] >= v["next"], "equiv")
         if err:
             res.fail("chromOrder/serial/idiom", n, err)
@@ -70,7 +70,6 @@ def ob_chrom_order(ctx, res):
         return
     curn, nxtn = [e["name"] for e in pat[0]["pat"]["elems"]]
     from ..rules.interp import Interp, NotPure
-    from ..astq import _tnorm
     nf = _tnorm(fn, strip(ifs[0]["cond"]))
     rows = 0
     for allow in (False, True):
